@@ -21,3 +21,9 @@ package format
 //@   modifies *
 //@   loop 1
 //@     invariant f.StreamMuxConfig != nil ==> wfSMC(f.StreamMuxConfig)
+
+// Not claimed: indexes the result of a regular-expression match (re2[1]); that the pattern has
+// a capture group is a fact about the regexp literal, outside the contracts. Given a frame so
+// that callers are checked against it instead of its body.
+//@ func replaceSmartPayloadType
+//@   modifies fresh
